@@ -361,6 +361,13 @@ def proto_jobs(pid, quick, rng):
                      "RandomVariableUncertaintyBudgetManager", "RandomBudgetManager", "SplitBudgetManager"):
             for w, b, k, n in big:
                 jobs.append((name, True, b, w, int(rng.integers(0, 100)), n, 100 + k, int(rng.integers(0, 10 ** 6))))
+        # long greedy streams for the managers / baselines that count labels without a window: the counters pass
+        # 255 / 256 granted labels (a narrow counter wraps there and the manager forgets what it has spent)
+        for name, is_mgr in (("DensityBasedSplitBudgetManager", True), ("StreamRandomSampling", False),
+                             ("PeriodicSampling", False)):
+            for b, k, n in ([(0.5, 64, 640)] if quick else [(0.5, 64, 640), (0.25, 50, 1200), (0.9, 7, 400),
+                                                            (0.5, 1, 640)]):
+                jobs.append((name, is_mgr, b, 2, int(rng.integers(0, 100)), n, 100 + k, int(rng.integers(0, 10 ** 6))))
     return jobs
 
 
